@@ -11,6 +11,19 @@ import (
 var crashRef sync.Map
 
 func replayInput(t *testing.T, pd *PropDef, v Violation, input json.RawMessage) int {
-	fmt.Println("input replay not built yet")
-	return 2
+	if pd.ReplayInput == nil {
+		fmt.Println("no input replay for", pd.ID)
+		return 2
+	}
+	fmt.Printf("input: %s\n", string(input))
+	vs := pd.ReplayInput(&EnumEnv{T: t, Tier: *flagTier}, input)
+	code := 0
+	for _, vv := range vs {
+		fmt.Printf("VIOLATION property=%s replay=%s\n  rule=%s signature=%s: %s\n", vv.Property, *flagReplay, vv.Rule, vv.Signature, vv.Msg)
+		code = 1
+	}
+	if code == 0 {
+		fmt.Println("no violation on this tree for this input")
+	}
+	return code
 }
